@@ -395,6 +395,11 @@ func ecCases() []ecCase {
 			}
 			add(ecCase{proto: "lindell17", curve: "k256", s: t23, a: ord(t23), kg: "dealer", q: q12, order: api, msg: 3, api: api})
 			add(ecCase{proto: "cggmp21", curve: "k256", s: t23, a: ord(t23), kg: "dealer", q: q12, msg: 2, api: api})
+			if api == apiRounds {
+				// non-minimal quorums: pairwise sub-contexts differ from the quorum's context only from three cosigners on
+				add(ecCase{proto: "cggmp21", curve: "k256", s: t23, a: ord(t23), kg: "dealer", q: 0b111, msg: 4, api: api})
+				add(ecCase{proto: "dkls23-bbot", curve: "p256", s: t23, a: ord(t23), kg: "dealer", q: 0b111, msg: 3, api: api})
+			}
 		}
 		// unqualified pairs of T(3,3) at the DKLs23 constructors (cheap key material)
 		t33 := smallByName("thr(3,3)")[0]
